@@ -108,6 +108,7 @@ func runC11Race(a vh.Args, o *vh.Oracle, r *vh.Result) error {
 	if err := c11Concurrent(vh.Args{Tier: "quick", Seed: a.Seed, Work: a.Work}, o, r, rng); err != nil {
 		return err
 	}
+	c11FailoverLateReports(r, rng, 3000, map[string]interface{}{"conc": "failover-late-reports", "trials": 60000, "late_seed": a.Seed})
 	return c11Hammer(r, rng)
 }
 
@@ -189,4 +190,136 @@ func c11Hammer(r *vh.Result, rng *vh.Rand) error {
 		}
 	}
 	return nil
+}
+
+// c11FailoverLateReports: truly parallel failure reports.  The cooperative scheduler runs one goroutine at a time, so
+// it cannot put another goroutine's errorFrom between a request's own errorFrom and its next current().  Here a group
+// of n >= 3 members (all but the last broken for good) gets one or two requests parked INSIDE each broken member j, at
+// the attempt that reaches it (gate at the member's entry); a pilot request then moves the group on to the healthy
+// member; finally all parked requests are released at once and run on all cores: their failure reports about members
+// 0..n-2 arrive late and concurrently.  Predicate: the last member never fails, so no request may fail, and none may
+// call a member twice.  Only a real failure of a real request raises the alarm.
+func c11FailoverLateReports(r *vh.Result, rng *vh.Rand, trials int, replay map[string]interface{}) {
+	desync.VerifSetYieldHook(nil)
+	failed := false
+	for trial := 0; trial < trials && !failed; trial++ {
+		n := 3 + rng.Intn(2)
+		per := 1 + rng.Intn(2)
+		var specs []string
+		for k := 0; k < n; k++ {
+			if k == n-1 {
+				specs = append(specs, "0:7:1/_/n")
+			} else {
+				specs = append(specs, "0:1:1/_/e")
+			}
+		}
+		w, err := c11NewWorld(specs)
+		if err != nil {
+			return
+		}
+		type role struct {
+			depth   int
+			held    bool
+			entered chan struct{}
+			calls   []int
+		}
+		var mu sync.Mutex
+		roles := map[string]*role{}
+		release := make(chan struct{})
+		w.onCall = func(m *c11Member, op byte, id int) {
+			gid := c12GoroutineID()
+			mu.Lock()
+			ro := roles[gid]
+			if ro != nil {
+				ro.calls = append(ro.calls, m.idx)
+			}
+			hold := ro != nil && !ro.held && ro.depth == m.idx
+			if hold {
+				ro.held = true
+			}
+			mu.Unlock()
+			if hold {
+				ro.entered <- struct{}{}
+				<-release
+			}
+		}
+		var ms []desync.Store
+		for _, m := range w.members {
+			ms = append(ms, m)
+		}
+		group := desync.NewFailoverGroup(ms...)
+		type outcome struct {
+			ro  *role
+			err error
+		}
+		results := make(chan outcome, 64)
+		start := func(depth int) *role {
+			ro := &role{depth: depth, entered: make(chan struct{}, 1)}
+			ready := make(chan struct{})
+			go func() {
+				mu.Lock()
+				roles[c12GoroutineID()] = ro
+				mu.Unlock()
+				close(ready)
+				_, err := group.GetChunk(c11ID(0))
+				results <- outcome{ro, err}
+			}()
+			<-ready
+			return ro
+		}
+		nreq := 0
+		for j := 0; j < n-1; j++ { // requests parked inside member j, reached at their (j+1)-th attempt
+			for k := 0; k < per; k++ {
+				ro := start(j)
+				nreq++
+				select {
+				case <-ro.entered:
+				case <-time.After(5 * time.Second):
+					r.Fail("predicate", "chain/concurrent-stall", fmt.Sprintf("a request did not reach member %d of a failover group", j), replay)
+					close(release)
+					return
+				}
+			}
+		}
+		start(-1) // the pilot: moves the group on to the healthy member and is served by it
+		nreq++
+		first := <-results
+		close(release)
+		outs := []outcome{first}
+		for len(outs) < nreq {
+			select {
+			case o := <-results:
+				outs = append(outs, o)
+			case <-time.After(10 * time.Second):
+				r.Fail("predicate", "chain/concurrent-stall", "requests of a failover group did not return", replay)
+				return
+			}
+		}
+		for _, o := range outs {
+			seen := map[int]bool{}
+			twice := -1
+			for _, m := range o.ro.calls {
+				if seen[m] {
+					twice = m
+				}
+				seen[m] = true
+			}
+			if o.err != nil {
+				r.Fail("predicate", "failover/fails-with-healthy-member", fmt.Sprintf("group of %d members, members 0..%d broken, member %d never fails; %d requests parked inside each broken member were released together after the group had moved on to member %d (late, concurrent failure reports): a request failed with %q after calling members %v (trial %d)", n, n-2, n-1, per, n-1, o.err.Error(), o.ro.calls, trial), replay)
+				failed = true
+				break
+			}
+			if twice >= 0 {
+				r.Fail("predicate", "failover/repeats-member", fmt.Sprintf("group of %d members with late concurrent failure reports: a request called member %d twice (%v) (trial %d)", n, twice, o.ro.calls, trial), replay)
+				failed = true
+				break
+			}
+		}
+	}
+	r.Count("failover-late-reports", true)
+	r.Dist("conc:failover-late-reports")
+	if r.Extra == nil {
+		r.Extra = map[string]interface{}{}
+	}
+	r.Extra["failover_late_report_trials"] = trials
 }
